@@ -10,13 +10,19 @@
     spec_obs: the two dumps are equal (the refactoring law, checked on the implementation itself),
               and if b is a plain module set (one file, no grouping/uses/augment) the dump equals the
               direct reading [direct_read] of the text, which is written without any expansion
-              machinery; for [CIndep] the sub-tree under the second use of a grouping is the same
+              machinery; no dump holds anything but schema nodes ([obs_complete]: every uses was
+              replaced, also inside the rpcs/actions/notifications that came out of a grouping); for [CIndep] the sub-tree under the second use of a grouping is the same
               with and without the refines/augments of the first use. *)
 From Coq Require Import List Bool ZArith Strings.Byte.
 From YV Require Import Base.Verdict Schemac.Ast Schemac.Expand Schemac.Refactor.
 Import ListNotations.
 
-Inductive obs := ObsOk (t : list enode) | ObsErr | ObsPanic.
+(** [ObsResidue]: the load succeeded but the walk through the accessors met a definition that is
+    no schema node — a [uses] statement that was left in the compiled tree *)
+Inductive obs := ObsOk (t : list enode) | ObsErr | ObsPanic | ObsResidue.
+
+(** "every uses is replaced by a copy of the grouping's nodes": nothing but schema nodes is left *)
+Definition obs_complete (o : obs) : bool := match o with ObsResidue => false | _ => true end.
 
 Inductive case :=
 | CPair (tk : nat) (a b : modset) (oa ob : obs)
@@ -53,10 +59,29 @@ Fixpoint nearest (l : list (option bool)) : bool :=   (* innermost first *)
   | None :: tl => nearest tl
   end.
 
-Fixpoint read_stmt (anc : list (option bool)) (s : stmt) {struct s} : option enode :=
+(** members in accessor order: data definitions as written (input before output), then the
+    actions by name, then the notifications by name — written without [by_class] *)
+Definition ops_of (k : kind) (l : list enode) : list enode :=
+  sort_by_name (filter (fun e => kind_eqb (e_kind e) k) l).
+
+Definition data_of (l : list enode) : list enode :=
+  filter (fun e => match e_kind e with KAction | KNotif => false | _ => true end) l.
+
+Definition accessor_order (l : list enode) : list enode :=
+  data_of l ++ ops_of KAction l ++ ops_of KNotif l.
+
+Definition carries_config (k : kind) : bool :=
+  match k with KAction | KInput | KOutput | KNotif => false | _ => true end.
+
+Fixpoint read_stmt (ops_ok : bool) (anc : list (option bool)) (s : stmt) {struct s} : option enode :=
   match s with
   | SNode k n p ks _ kids =>
-      let here := p_config p :: anc in
+      (* an operation is a member of the module, a container or a list only *)
+      let placed := match k with KAction | KNotif => ops_ok | _ => true end in
+      (* rpc/action, input, output, notification: no config of their own, and the search for a
+         stating ancestor starts afresh below them *)
+      let here := if carries_config k then p_config p :: anc else [] in
+      let kids_ops := match k with KCont | KList => true | _ => false end in
       let kids1 :=
         (fix go (l : list stmt) : option (list enode) :=
            match l with
@@ -64,13 +89,13 @@ Fixpoint read_stmt (anc : list (option bool)) (s : stmt) {struct s} : option eno
            | x :: tl =>
                let ex :=
                  match k, x with
-                 | KChoice, SNode KCase _ _ _ _ _ => read_stmt here x
+                 | KChoice, SNode KCase _ _ _ _ _ => read_stmt kids_ops here x
                  | KChoice, SNode _ n' _ _ _ _ =>
-                     match read_stmt (None :: here) x with
+                     match read_stmt false (None :: here) x with
                      | Some e => Some (ENode KCase n' (norm_props (set_config no_props (nearest here))) [] [e])
                      | None => None
                      end
-                 | _, _ => read_stmt here x
+                 | _, _ => read_stmt kids_ops here x
                  end in
                match ex, go tl with
                | Some e, Some tl' => Some (e :: tl')
@@ -80,15 +105,20 @@ Fixpoint read_stmt (anc : list (option bool)) (s : stmt) {struct s} : option eno
       match kids1 with
       | None => None
       | Some kids' =>
-          let bad_cfg := match p_config p with Some true => negb (nearest anc) | _ => false end in
+          let bad_cfg :=
+            carries_config k &&
+            match p_config p with Some true => negb (nearest anc) | _ => false end in
           let keys_bad :=
             match k with
             | KList => negb (forallb (fun key => existsb (fun c => text_eqb (e_name c) key && leafable (e_kind c)) kids') ks)
             | _ => false
             end in
-          if bad_cfg || keys_bad then None
-          else Some (ENode k n (norm_props (set_config p (nearest here))) ks
-                           (match k with KChoice => sort_by_name kids' | _ => kids' end))
+          if bad_cfg || keys_bad || negb placed then None
+          else Some (ENode k n (norm_props (if carries_config k then set_config p (nearest here) else p)) ks
+                           (match k with
+                            | KChoice | KAction => sort_by_name kids'
+                            | _ => accessor_order kids'
+                            end))
       end
   | _ => None
   end.
@@ -97,12 +127,12 @@ Definition direct_read (ms : modset) : obs :=
   let r := (fix go (l : list stmt) : option (list enode) :=
               match l with
               | [] => Some []
-              | x :: tl => match read_stmt [] x, go tl with
+              | x :: tl => match read_stmt true [] x, go tl with
                            | Some e, Some tl' => Some (e :: tl')
                            | _, _ => None
                            end
               end) (m_body (ms_main ms)) in
-  match r with Some t => ObsOk t | None => ObsErr end.
+  match r with Some t => ObsOk (accessor_order t) | None => ObsErr end.
 
 (** sub-tree addressed by names from the top *)
 Fixpoint sub_at (path : list text) (l : list enode) : option enode :=
@@ -127,7 +157,7 @@ Fixpoint chain_spec (prev : option obs) (steps : list (nat * modset * obs)) : bo
   match steps with
   | [] => true
   | (_, ms, o) :: tl =>
-      match prev with Some p => obs_eqb p o | None => true end &&
+      match prev with Some p => obs_eqb p o | None => true end && obs_complete o &&
       (negb (plain_ms ms) || obs_eqb (direct_read ms) o) &&
       chain_spec (Some o) tl
   end.
@@ -147,12 +177,14 @@ Definition classify (c : case) : verdict :=
   | CPair _ a b oa ob =>
       let corr := model_obs_eqb (compile_modset default_fuel a) oa &&
                   model_obs_eqb (compile_modset default_fuel b) ob in
-      let spec := obs_eqb oa ob && (negb (plain_ms b) || obs_eqb (direct_read b) ob) in
+      let spec := obs_eqb oa ob && obs_complete oa && obs_complete ob &&
+                  (negb (plain_ms b) || obs_eqb (direct_read b) ob) in
       classify_gen corr spec (known_of a b)
   | CIndep a b path oa ob =>
       let corr := model_obs_eqb (compile_modset default_fuel a) oa &&
                   model_obs_eqb (compile_modset default_fuel b) ob in
       let spec :=
+        obs_complete oa && obs_complete ob &&
         match obs_sub path oa, obs_sub path ob with
         | Some x, Some y => enode_eqb x y
         | _, _ => false
